@@ -8,7 +8,10 @@ SPEC = os.path.join(VERIF, "spec")
 HARNESS = os.path.join(VERIF, "harness")
 VH = os.path.join(HARNESS, "target", "debug", "vh")
 TLC_SH = os.path.join(VERIF, "tools", "tlc.sh")
-REPO = "/repo"
+# The repository under test.  Always /repo for the registered checks; a background run started with
+# `vp run --with-repo` may point VERIF_REPO at its own snapshot so that it is not disturbed by (and
+# does not see) experiments in /repo.  Results of such runs are never committed as evidence.
+REPO = os.environ.get("VERIF_REPO") or "/repo"
 
 
 class ToolError(Exception):
@@ -31,6 +34,13 @@ def workdir(pid):
 
 def build_harness():
     """Rebuild the harness against /repo's current working tree (hooks on)."""
+    if REPO != "/repo":
+        if VERIF == "/verif":
+            raise ToolError("VERIF_REPO may only be used from a snapshot of /verif")
+        toml = os.path.join(HARNESS, "Cargo.toml")
+        text = open(toml).read()
+        if '"/repo/' in text:
+            open(toml, "w").write(text.replace('"/repo/', f'"{REPO}/'))
     lock = os.path.join(HARNESS, "Cargo.lock")
     if not os.path.exists(lock):
         import shutil
